@@ -755,6 +755,13 @@ def run(ctx):
                     continue
                 n_rc += 1
                 d_ = c_.args[0] if c_.args else kwarg(c_, p_dir)
+                if isinstance(d_, ast.Name):
+                    # a local bound once to the configured directory
+                    bs_ = [a_ for a_ in iter_own(f_) if isinstance(a_, ast.Assign) and any(
+                        isinstance(t_, ast.Name) and t_.id == d_.id for tt_ in a_.targets for t_ in ast.walk(tt_))]
+                    if len(bs_) == 1 and len(bs_[0].targets) == 1 and isinstance(bs_[0].targets[0], ast.Name) and \
+                            unparse(bs_[0].value) == 'self.tex_input_directory':
+                        d_ = bs_[0].value
                 okd = d_ is not None and (unparse(d_) == 'self.tex_input_directory' or
                                           (mm_ is m and f_ is fn and isinstance(d_, ast.Name) and d_.id == p_dir and
                                            not any(isinstance(t_, ast.Name) and t_.id == p_dir and isinstance(t_.ctx, ast.Store)
